@@ -187,8 +187,8 @@ def coq_eval_bools(ctx, name, imports, items, chunk=300, timeout=900, _depth=0):
             sub = items[k * chunk:k * chunk + n]
             if n > 1 and _depth < 4:      # isolate the items that cannot be evaluated
                 h = (n + 1) // 2
-                res.extend(coq_eval_bools(ctx, '%s_r%d_%da' % (name, _depth, k), imports, sub[:h], chunk=h, timeout=timeout, _depth=_depth + 1))
-                res.extend(coq_eval_bools(ctx, '%s_r%d_%db' % (name, _depth, k), imports, sub[h:], chunk=max(1, n - h), timeout=timeout, _depth=_depth + 1))
+                res.extend(coq_eval_bools(ctx, '%s_r%d_%da' % (name, _depth, k), imports, sub[:h], chunk=h, timeout=max(120, timeout // 2), _depth=_depth + 1))
+                res.extend(coq_eval_bools(ctx, '%s_r%d_%db' % (name, _depth, k), imports, sub[h:], chunk=max(1, n - h), timeout=max(120, timeout // 2), _depth=_depth + 1))
             else:
                 if len(ctx.notes) < 20: ctx.notes.append('coq evaluation failed for %s: %s' % (files[k], out[-600:]))
                 res.extend([None] * n)
